@@ -156,6 +156,15 @@ pub struct DedupV0 {
     pub c: DeduplicatedString,
 }
 
+include!("special_gen.rs");
+
+/// evolution metadata that references a field the record does not have: every encode must fail with the dedicated error
+#[derive(BinaryCodec)]
+#[evolution(FieldMadeOptional("nope"))]
+pub struct BadEvolution {
+    pub a: u8,
+}
+
 macro_rules! rec_model {
     ($t:ident { $($f:ident : $ft:ty),+ }) => {
         impl Model for $t {
@@ -174,6 +183,8 @@ rec_model!(DedupRemoved { s: DeduplicatedString, t: DeduplicatedString });
 rec_model!(DedupMixed { s: DeduplicatedString, t: DeduplicatedString, cache: u8, u: String });
 rec_model!(DedupNoNames { s: DeduplicatedString, o: Option<DeduplicatedString>, t: DeduplicatedString });
 rec_model!(DedupV0 { a: DeduplicatedString, b: String, c: DeduplicatedString });
+rec_model!(MaxSteps { a: u8, b: String });
+rec_model!(BadEvolution { a: u8 });
 
 pub fn register(reg: &mut Registry) {
     refmodel::register(
@@ -250,6 +261,21 @@ pub fn register(reg: &mut Registry) {
             steps: vec![],
         })),
     );
+    refmodel::register(
+        "MaxSteps",
+        Ty::Record(Arc::new(RecordSchema {
+            name: "MaxSteps".into(),
+            fields: vec![f::<u8>("a", false), f::<String>("b", false)],
+            steps: (0..254).map(|i| Step::Removed(format!("old{i}"))).collect(),
+        })),
+    );
+    refmodel::register(
+        "BadEvolution",
+        Ty::Record(Arc::new(RecordSchema { name: "BadEvolution".into(), fields: vec![f::<u8>("a", false)], steps: vec![Step::MadeOptional("nope".into())] })),
+    );
+    reg.add_tagged::<MaxSteps>("MaxSteps", &["special:limits"]);
+    // not registered as an ordinary subject (it can never be encoded): C17 addresses it by name
+    reg.add_tagged::<BadEvolution>("BadEvolution", &["special:unencodable"]);
     reg.add_tagged::<DeepRec>("DeepRec", &["special:recursive", "recursive"]);
     reg.add_tagged::<DeepVec>("DeepVec", &["special:recursive", "recursive"]);
     reg.add_tagged::<DeepEnum>("DeepEnum", &["special:recursive", "recursive"]);
